@@ -100,6 +100,8 @@ def make_kernel(ctx, kind, N, terms, sweeps, tmode, in_order):
         if res[0] == 'UB':
             return [Ob('no undefined behaviour in the kernel', False, info={'ub': res[1], 'init': res[2]}, sig='UB: ' + res[1].split(':')[0])]
         _, init, final, events, defs, leaks, called, checks, nsteps, narr = res
+        if not hasattr(ctx, 'extra_functions'): ctx.extra_functions = set()
+        ctx.extra_functions |= {'C-IR:' + n for n in called}
         obs = [Ob('kernel frees what it allocates', not leaks, info={'leaks': leaks})]
         counter[0] += 1
         if ctx.concrete is None and (counter[0] <= 15 or counter[0] % 10 == 0):
